@@ -20,6 +20,7 @@ import (
 	_ "verif/engines/projh"
 	_ "verif/engines/routeh"
 	_ "verif/engines/rtreeh"
+	_ "verif/engines/storeh"
 )
 
 func envSeed() uint64 {
